@@ -118,3 +118,91 @@ def read_commit_builder(g, E, do, length):
         if g.p(0.3):
             do({"cmd": "restart"})
             do(_req(g, [{"op": "get", "uid": K, "format": None, "compression": False, "wrap": None}], ver))
+
+
+def attr_commit_builder(g, E, do, length):
+    """[an attribute operation on O - renaming to a value another instance already has, out-of-range indices,
+    protected attributes, both request forms; another attribute operation that commits on Z; a read of O] in one
+    Continue batch: a refused operation must not have touched O (the commit would make it permanent), a successful one
+    must have changed exactly the addressed instance."""
+    r = g.r
+    ver = g.ch([12, 14, 14, 20, 20])
+    raw_do = do
+
+    def do(j):
+        o = raw_do(j)
+        if j.get("cmd") == "req":
+            raw_do({"cmd": "dump"})
+        return o
+    names = ["alpha", "beta", "gamma"]
+    groups = ["grpA", "grpB"]
+
+    def mk(nm, gr, app):
+        attrs = [_A("Cryptographic Algorithm", "enum", 3), _A("Cryptographic Length", "int", 128),
+                 _A("Cryptographic Usage Mask", "int", 12)]
+        attrs += [_A("Name", "name", n, i, t=1) for i, n in enumerate(nm)]
+        attrs += [_A("Object Group", "text", x, i) for i, x in enumerate(gr)]
+        attrs += [{"name": "Application Specific Information", "index": i, "value": {"k": "appinfo", "ns": a, "d": b}}
+                  for i, (a, b) in enumerate(app)]
+        return _uid(do(_req(g, [{"op": "create", "otype": 2, "tmpl": {"tnames": 0, "attrs": attrs},
+                                 "crypto": {"k": "ok", "t": hexof(16, rnd=r)}}], ver)))
+    O = mk(names, groups, [("ssl", "www"), ("ns2", "d2")])
+    Z = mk(["zed"], ["grpA"], [])
+    if O is None or Z is None:
+        return
+    nm = lambda v: {"k": "name", "v": v, "t": 1}
+    tx = lambda v: {"k": "text", "v": v}
+    cnt = [0]
+
+    def zcommit():
+        cnt[0] += 1
+        if ver < 20:
+            return {"op": "modifyAttribute", "uid": Z, "attr": {"name": "Name", "index": 0, "value": nm("zed%d" % cnt[0])},
+                    "current": None, "new": None}
+        return {"op": "modifyAttribute", "uid": Z, "attr": None,
+                "current": {"name": "Name", "index": None, "value": nm("zed" if cnt[0] == 1 else "zed%d" % (cnt[0] - 1))},
+                "new": {"name": "Name", "index": None, "value": nm("zed%d" % cnt[0])}}
+    if ver < 20:
+        variants = [
+            {"op": "modifyAttribute", "uid": O, "attr": {"name": "Name", "index": 1, "value": nm("alpha")}, "current": None, "new": None},
+            {"op": "modifyAttribute", "uid": O, "attr": {"name": "Name", "index": 0, "value": nm("gamma")}, "current": None, "new": None},
+            {"op": "modifyAttribute", "uid": O, "attr": {"name": "Name", "index": 2, "value": nm("fresh1")}, "current": None, "new": None},
+            {"op": "modifyAttribute", "uid": O, "attr": {"name": "Name", "index": 7, "value": nm("far")}, "current": None, "new": None},
+            {"op": "modifyAttribute", "uid": O, "attr": {"name": "Name", "index": None, "value": nm("beta")}, "current": None, "new": None},
+            {"op": "modifyAttribute", "uid": O, "attr": {"name": "Object Group", "index": 1, "value": tx("grpA")}, "current": None, "new": None},
+            {"op": "modifyAttribute", "uid": O, "attr": {"name": "Object Group", "index": 5, "value": tx("grpZ")}, "current": None, "new": None},
+            {"op": "modifyAttribute", "uid": O, "attr": {"name": "Application Specific Information", "index": 1,
+                                                          "value": {"k": "appinfo", "ns": "ssl", "d": "www"}}, "current": None, "new": None},
+            {"op": "modifyAttribute", "uid": O, "attr": {"name": "Cryptographic Usage Mask", "index": None, "value": {"k": "int", "v": 3}},
+             "current": None, "new": None},
+            {"op": "modifyAttribute", "uid": O, "attr": {"name": "State", "index": None, "value": {"k": "enum", "v": 2}}, "current": None, "new": None},
+            {"op": "deleteAttribute", "uid": O, "name": "Name", "index": 1, "current": None, "reference": None},
+            {"op": "deleteAttribute", "uid": O, "name": "Name", "index": 9, "current": None, "reference": None},
+            {"op": "deleteAttribute", "uid": O, "name": "State", "index": None, "current": None, "reference": None},
+            {"op": "deleteAttribute", "uid": O, "name": "Object Group", "index": 0, "current": None, "reference": None},
+        ]
+    else:
+        cur = lambda n, v: {"name": n, "index": None, "value": v}
+        variants = [
+            {"op": "modifyAttribute", "uid": O, "attr": None, "current": cur("Name", nm("beta")), "new": cur("Name", nm("alpha"))},
+            {"op": "modifyAttribute", "uid": O, "attr": None, "current": cur("Name", nm("alpha")), "new": cur("Name", nm("fresh2"))},
+            {"op": "modifyAttribute", "uid": O, "attr": None, "current": cur("Name", nm("nosuch")), "new": cur("Name", nm("x"))},
+            {"op": "modifyAttribute", "uid": O, "attr": None, "current": cur("Object Group", tx("grpB")), "new": cur("Object Group", tx("grpA"))},
+            {"op": "modifyAttribute", "uid": O, "attr": None, "current": None, "new": cur("Name", nm("gamma"))},
+            {"op": "modifyAttribute", "uid": O, "attr": None, "current": cur("Name", nm("gamma")), "new": cur("Object Group", tx("grpQ"))},
+            {"op": "setAttribute", "uid": O, "attr": cur("Sensitive", {"k": "bool", "v": True})},
+            {"op": "setAttribute", "uid": O, "attr": cur("Sensitive", {"k": "bool", "v": False})},
+            {"op": "setAttribute", "uid": O, "attr": cur("Operation Policy Name", tx("public"))},
+            {"op": "setAttribute", "uid": O, "attr": cur("Name", nm("alpha"))},
+            {"op": "deleteAttribute", "uid": O, "name": None, "index": None, "current": cur("Name", nm("gamma")), "reference": None},
+            {"op": "deleteAttribute", "uid": O, "name": None, "index": None, "current": cur("Name", nm("nosuch")), "reference": None},
+            {"op": "deleteAttribute", "uid": O, "name": None, "index": None, "current": None, "reference": "Object Group"},
+            {"op": "deleteAttribute", "uid": O, "name": None, "index": None, "current": None, "reference": "State"},
+        ]
+    r.shuffle(variants)
+    for v in variants[:max(4, min(length, len(variants)))]:
+        items = [dict(v), zcommit()]
+        if g.p(0.5):
+            items.append({"op": "getAttributes", "uid": O, "names": []})
+        do(_req(g, items, ver, bopt=1))
+        do(_req(g, [{"op": "getAttributes", "uid": O, "names": []}], ver))
